@@ -17,7 +17,19 @@ Enumerated space (every element is one real run of the html target of the workin
                   with all six kinds (core) and 72 single-reference graphs (quick: seed slice).
   D  names        identifier shapes at type / field / constant / namespace position, and the shapes that alias under the
                   generator's id scheme ('.' -> '_', '_sidebar' suffix, ids fixed by the template).
+                  D2: every identifier shape (those of D plus snake_case / mixed-case / digit shapes) in the full name
+                  of a SERVICE - short name (namespace depth 1..3), enclosing namespace (depth 2 and 3), root namespace -
+                  and as attribute names of both service sections, with message and service referrers on other pages.
   E  constants    constant expressions of every primitive kind incl. character literals '<' '&' '"'.
+  F  attr counts  number of attributes of one composite (fields, constants, padding counted together): 0..12 and the
+                  neighbours of every power of two / round number up to 257 x 3 compositions (fields only, constants
+                  only, fields+constants+padding; quick: the mixed composition up to 129 and the pure ones up to 33 and
+                  63..65 are the core, the rest the seed slice); each graph holds a structure, a union, a service (both
+                  sections), a service with a union request, all with exactly that many attributes, and referrers in
+                  another namespace that expand them as nested field, fixed / variable array element, service field and
+                  one level deeper (so the count also occurs in nested expansions on other pages).
+  G  population   1..33 types in one namespace, 1..17 versions of one type, 1..17 nested namespaces (all referenced from
+                  another page), chains of nested composites to depth 10.
 
 Oracles (vf.c20_html, written over html.parser events; no nunavut code involved):
   1. strict well-formedness of every generated page (void elements known, every other start tag closed in order, no
@@ -510,6 +522,172 @@ def name_cases() -> typing.List[dict]:
     return out
 
 
+# ---- services at every name position (layer D2): the Request / Response sections of a service are the only links whose
+#      anchor is derived from the *owner* of the linked type, so every identifier shape is also placed in the full name of
+#      a service (short name, enclosing namespace at depth 2 and 3, root namespace), together with references to
+#      messages of the same namespaces from pages of other namespaces (message referrer and service referrer).
+NAMES_D2 = NAMES + ["motor_ctl", "Ab_Cd", "a_1_2", "x_y_z", "mIx9_", "a__"]
+_SVC = "uint8 q\n@sealed\n---\nuint8 r\n@sealed\n"
+_MSG = "uint8 a\n@sealed\n"
+
+
+def service_name_cases() -> typing.List[dict]:
+    out = []
+    for n in NAMES_D2:
+        # the shape as the short name of a service: in the root namespace and in a nested one
+        out.append(
+            {
+                "label": f"name:service:{n}",
+                "files": {f"r/{n}.1.0.dsdl": _SVC, f"r/x/{n}.1.0.dsdl": _SVC, f"r/x/y/{n}.2.1.dsdl": _SVC},
+                "roots": ["r"],
+                "mode": "same",
+            }
+        )
+        # the shape as a namespace component above services and messages; referrers live on other pages
+        out.append(
+            {
+                "label": f"name:service_namespace:{n}",
+                "files": {
+                    f"r/{n}/S.1.0.dsdl": _SVC,
+                    f"r/{n}/M.1.0.dsdl": _MSG,
+                    f"r/{n}/{n}/S.1.0.dsdl": f"r.{n}.M.1.0 q\n@sealed\n---\nr.{n}.{n}.M.1.0[<=2] r\n@sealed\n",
+                    f"r/{n}/{n}/M.1.0.dsdl": _MSG,
+                    "r/y/User.1.0.dsdl": f"r.{n}.M.1.0 m\nr.{n}.{n}.M.1.0[2] ma\n@sealed\n",
+                    "r/y/Call.1.0.dsdl": f"r.{n}.M.1.0 q\n@sealed\n---\n@union\nuint8 a\nr.{n}.{n}.M.1.0 b\n@sealed\n",
+                },
+                "roots": ["r"],
+                "mode": "same",
+            }
+        )
+        # the shape as the root namespace (the first path component of every link) of messages and services
+        out.append(
+            {
+                "label": f"name:root_namespace:{n}",
+                "files": {
+                    f"{n}/S.1.0.dsdl": _SVC,
+                    f"{n}/M.1.0.dsdl": _MSG,
+                    f"{n}/x/S.1.0.dsdl": f"{n}.M.1.0 q\n@sealed\n---\n{n}.M.1.0[<=2] r\n@sealed\n",
+                    f"{n}/x/User.1.0.dsdl": f"{n}.M.1.0 m\n@sealed\n",
+                },
+                "roots": [n],
+                "mode": "same",
+            }
+        )
+        # the shape as attribute names inside both sections of a service
+        out.append(
+            {
+                "label": f"name:service_attribute:{n}",
+                "files": {
+                    "r/In.1.0.dsdl": _MSG,
+                    "r/S.1.0.dsdl": f"uint8 {n}\nr.In.1.0 {n}2\n@sealed\n---\nuint8 {n} = 1\nr.In.1.0[<=2] {n}2\n@sealed\n",
+                },
+                "roots": ["r"],
+                "mode": "same",
+            }
+        )
+    return out
+
+
+# -------------------------------------------------------------------------------- attribute counts (layer F)
+# Number of attributes (fields, constants and padding counted together) of one composite: every count up to 10 and the
+# neighbourhood of every power of two / round number up to 129 (quick core) resp. 257 (seed slice / thorough).
+ATTR_COUNTS = (0, 1, 2, 3, 4, 5, 6, 7, 8, 9, 10, 11, 12, 15, 16, 17, 19, 20, 21, 24, 25, 31, 32, 33, 49, 50, 51, 63, 64, 65, 99, 100, 101, 127, 128, 129)
+ATTR_COUNTS_THOROUGH = (255, 256, 257)
+ATTR_MIXES = ("fields", "constants", "mixed")
+
+
+def _attr_lines(n: int, mix: str, union: bool) -> typing.Tuple[typing.List[str], int]:
+    """n attribute statements (exactly n attributes in PyDSDL's count) and the number of distinct attribute names."""
+    lines: typing.List[str] = []
+    pads = 0
+    for i in range(n):
+        if mix == "fields" or (union and i < 2):  # a union needs two variants
+            kind = "f"
+        elif mix == "constants":
+            kind = "k"
+        else:
+            kind = ("f", "k", "f" if union else "p")[i % 3]
+        if kind == "f":
+            lines.append(f"bool f{i}")
+        elif kind == "k":
+            lines.append(f"bool K{i} = true")
+        else:
+            lines.append("void1")
+            pads += 1
+    return lines, n - pads + (1 if pads else 0)
+
+
+def attr_count_case(n: int, mix: str) -> dict:
+    """
+    One namespace tree in which a structure, a union (n >= 2), both sections of a service and the union request of a
+    second service have exactly n attributes each, and pages of another namespace expand them as nested field, as
+    element of a fixed / variable array, below a service section, and one level further down.
+    """
+    s, s_names = _attr_lines(n, mix, False)
+    u, u_names = _attr_lines(n, mix, True)
+    sb = "".join(x + "\n" for x in s)
+    ub = "@union\n" + "".join(x + "\n" for x in u)
+    files = {
+        "r/a/S.1.0.dsdl": sb + "@sealed\n",
+        "r/a/V.1.0.dsdl": sb + "@sealed\n---\n" + sb + "@extent 8 * 1024\n",
+        "r/b/User.1.0.dsdl": "r.a.S.1.0 s\nr.a.S.1.0[2] sf\nr.a.S.1.0[<=2] sv\n@sealed\n",
+        "r/b/Svc.1.0.dsdl": "r.a.S.1.0 s\n@sealed\n---\nr.a.S.1.0[<=2] sv\n@sealed\n",
+        "r/Top.1.0.dsdl": "r.b.User.1.0 u\n@sealed\n",
+    }
+    expect = [["r.a.S", None, s_names], ["r.a.V", "request", s_names], ["r.a.V", "response", s_names]]
+    if n >= 2:
+        files["r/a/U.1.0.dsdl"] = ub + "@sealed\n"
+        files["r/a/W.1.0.dsdl"] = ub + "@sealed\n---\nuint8 r\n@sealed\n"
+        files["r/b/UserU.1.0.dsdl"] = "r.a.U.1.0 u\nr.a.U.1.0[2] uf\nr.a.U.1.0[<=2] uv\n@sealed\n"
+        files["r/Top.1.0.dsdl"] = "r.b.User.1.0 u\nr.b.UserU.1.0[<=2] uu\n@sealed\n"
+        expect += [["r.a.U", None, u_names], ["r.a.W", "request", u_names]]
+    return {
+        "label": f"attrcount:{mix}:{n}",
+        "files": files,
+        "roots": ["r"],
+        "mode": "same",
+        "expect_attr_names": expect,
+        "must_accept": n <= max(ATTR_COUNTS),  # beyond: PyDSDL 1.25 hits its recursion limit on 255 fields in an array
+    }
+
+
+def attr_count_core(n: int, mix: str) -> bool:
+    """Quick core: every count in the mixed composition; the pure compositions up to 33 and around 64."""
+    return n <= max(ATTR_COUNTS) and (mix == "mixed" or n <= 33 or 63 <= n <= 65)
+
+
+def attr_count_cases(thorough: bool) -> typing.List[dict]:
+    counts = ATTR_COUNTS + ATTR_COUNTS_THOROUGH
+    return [attr_count_case(n, mix) for n in counts for mix in ATTR_MIXES if thorough or n <= max(ATTR_COUNTS)]
+
+
+# -------------------------------------------------------------------------------- population and depth (layer G)
+POPULATION = (1, 2, 3, 4, 5, 7, 8, 9, 15, 16, 17, 31, 32, 33)
+DEPTHS = (4, 5, 8, 9, 10)
+
+
+def population_cases() -> typing.List[dict]:
+    """k types / k versions of one type / k nested namespaces in one namespace; a chain of k nested composites."""
+    out = []
+    for k in POPULATION:
+        files = {f"r/p/T{i}.1.0.dsdl": _MSG for i in range(k)}
+        files["r/User.1.0.dsdl"] = "".join(f"r.p.T{i}.1.0 t{i}\n" for i in range(k)) + "@sealed\n"
+        out.append({"label": f"population:types:{k}", "files": files, "roots": ["r"], "mode": "same"})
+        if k <= 17:
+            files = {f"r/n{i}/T.1.0.dsdl": _MSG for i in range(k)}
+            files["r/n0/User.1.0.dsdl"] = "".join(f"r.n{i}.T.1.0 t{i}\n" for i in range(k)) + "@sealed\n"
+            out.append({"label": f"population:namespaces:{k}", "files": files, "roots": ["r"], "mode": "same"})
+            files = {f"r/T.1.{i}.dsdl": _MSG for i in range(k)}
+            files["r/x/User.1.0.dsdl"] = "".join(f"r.T.1.{i} t{i}\n" for i in range(k)) + "@sealed\n"
+            out.append({"label": f"population:versions:{k}", "files": files, "roots": ["r"], "mode": "same"})
+    for k in DEPTHS:
+        files = {"r/c/T0.1.0.dsdl": _MSG}
+        for i in range(1, k):
+            files[f"r/c/T{i}.1.0.dsdl"] = f"r.c.T{i - 1}.1.0 inner\nr.c.T{i - 1}.1.0[<=2] more\n@sealed\n" if i < 6 else f"r.c.T{i - 1}.1.0 inner\n@sealed\n"
+        out.append({"label": f"population:nesting_depth:{k}", "files": files, "roots": ["r"], "mode": "same"})
+    return out
+
+
 # -------------------------------------------------------------------------------- constants (layer E)
 CONSTANTS = [
     ("uint8", "'<'"),
@@ -881,6 +1059,8 @@ def eval_case(case: dict, scratch: pathlib.Path, base_cache: typing.Optional[dic
     res = Result()
     tree = generate_tree(case["files"], case["roots"], case["mode"], scratch)
     if tree.rejected is not None:
+        if case.get("must_accept"):
+            raise HarnessError(f"PyDSDL rejects a namespace the space relies on ({case['label']}): {tree.rejected[:300]}")
         res.count("rejected_by_pydsdl")
         res.outcomes.add("rejected")
         return res
@@ -888,9 +1068,16 @@ def eval_case(case: dict, scratch: pathlib.Path, base_cache: typing.Optional[dic
         judge_paired(tree, case, res)
         return res
     res.count("cases")
+    for full_name, sec, want in case.get("expect_attr_names", ()):
+        have = sum(1 for (t, s, a) in tree.docs if t == full_name and s == sec and a is not None)
+        if have != want:
+            raise HarnessError(f"PyDSDL sees {have} attribute names in {full_name}/{sec}, the case wrote {want} ({case['label']})")
+        res.count("attribute_count_sections")
     base_files = case.get("base_files")
     if base_files is None:
         check_tree_standalone(tree, res)
+        if any(sec == "request" for (_, sec, _) in tree.docs):
+            res.count("links_checked_in_trees_with_services", res.stats.get("links_checked", 0))
         if not res.violations:
             res.outcomes.add("standalone_ok:links" if res.stats.get("links_resolved") else "standalone_ok:nolinks")
         return res
@@ -1023,7 +1210,7 @@ def _work(job: dict) -> dict:
 
 
 def _replayable(case: dict) -> dict:
-    keep = ("label", "files", "base_files", "pair", "roots", "mode", "word", "doc", "position", "slot_key")
+    keep = ("label", "files", "base_files", "pair", "roots", "mode", "word", "doc", "position", "slot_key", "expect_attr_names", "must_accept")
     return {k: case[k] for k in keep if k in case}
 
 
@@ -1065,9 +1252,24 @@ def run(ctx: Ctx) -> int:
     all_single = link_cases() + prefix_link_cases()
     single_links = [c for c in all_single if ctx.in_slice("C|" + c["label"])]
     link_sets = link_set_cases() + prefix_link_set_cases()
-    plain = link_sets + single_links + name_cases() + const_cases()
+    d2_cases = service_name_cases()
+    f_all = attr_count_cases(True)
+    f_cases = [
+        c
+        for c in f_all
+        if attr_count_core(int(c["label"].split(":")[2]), c["label"].split(":")[1]) or ctx.in_slice("F|" + c["label"])
+    ]
+    g_cases = population_cases()
+    plain = link_sets + single_links + name_cases() + const_cases() + d2_cases + g_cases
     for i in range(0, len(plain), 6):
         jobs.append({"type": "cases", "cases": plain[i : i + 6], "scratch": scratch})
+    # layer F: the large counts first and one small with one large count per job (even load, deterministic)
+    f_sorted = sorted(f_cases, key=lambda c: -len(c["files"]["r/a/S.1.0.dsdl"]))
+    half = (len(f_sorted) + 1) // 2
+    for i in range(half):
+        pair = [f_sorted[i]] + ([f_sorted[len(f_sorted) - 1 - i]] if len(f_sorted) - 1 - i >= half else [])
+        jobs.append({"type": "cases", "cases": pair, "scratch": scratch})
+    plain = plain + f_cases
 
     results = ctx.pool_map(_work, jobs)  # ordered: results are merged in job order whatever the scheduling was
     evals = sum(r["evals"] for r in results)
@@ -1092,6 +1294,9 @@ def run(ctx: Ctx) -> int:
         layer_A_explored=space["A_explored"],
         layer_B_cases=n_b,
         layer_CDE_cases=len(plain),
+        layer_D2_service_name_cases=len(d2_cases),
+        layer_F_attribute_count_cases=len(f_cases),
+        layer_G_population_cases=len(g_cases),
         distinct_doc_strings=len(docs),
         sinks=sorted(sinks),
         not_demanded_observations={k: notes[k] for k in sorted(notes)},
@@ -1100,7 +1305,14 @@ def run(ctx: Ctx) -> int:
     if len(sinks) < 6:
         raise HarnessError(f"vacuous: DSDL text reached only {len(sinks)} distinct (position, sink) pairs: {sorted(sinks)}")
     # (guards look at what was *attempted*, never at what passed: a tree on which every link is broken is a violation)
-    for need in ("links_checked_fragment_only", "links_checked_page_and_fragment", "pages_checked", "sinks_reached"):
+    for need in (
+        "links_checked_fragment_only",
+        "links_checked_page_and_fragment",
+        "pages_checked",
+        "sinks_reached",
+        "attribute_count_sections",
+        "links_checked_in_trees_with_services",
+    ):
         if not ctx.stats.get(need):
             raise HarnessError(f"vacuous: statistic {need} is zero")
     positions = {s.split("@")[0] for s in sinks}
@@ -1124,7 +1336,14 @@ def run(ctx: Ctx) -> int:
         f"{len(b_all)} strings; {len(B_CORE_DOCS)} core strings complete); C: {len(link_sets)} link graphs with all 6 "
         f"reference kinds complete ({len(prefix_link_set_cases())} of them with prefix-named namespace pairs) + "
         f"{len(single_links)}/{len(all_single)} single-reference link graphs; D: {len(name_cases())} "
-        f"name/alias shapes complete; E: {len(const_cases())} constant expressions complete",
+        f"name/alias shapes complete + {len(d2_cases)} graphs with the {len(NAMES_D2)} identifier shapes in the full name / the "
+        f"attributes of services (short name, namespace at depth 2 and 3, root namespace) complete; E: {len(const_cases())} "
+        f"constant expressions complete; F: {len(f_cases)}/{len(f_all)} graphs (attribute counts "
+        f"{', '.join(map(str, ATTR_COUNTS + ATTR_COUNTS_THOROUGH))} x {len(ATTR_MIXES)} compositions fields / constants / "
+        f"fields+constants+padding; each with structure, union, service sections and nested / array-element expansions on "
+        f"other pages; {'complete' if ctx.thorough else 'complete for the mixed composition up to ' + str(max(ATTR_COUNTS)) + ' and for the pure compositions up to 33 and 63..65, the rest seed slice 1/16'}); "
+        f"G: {len(g_cases)} population graphs (types / versions / nested namespaces per namespace up to {max(POPULATION)}, "
+        f"composite nesting depth up to {max(DEPTHS)}) complete",
         "exhaustive": bool(ctx.thorough),
     }
     return ctx.finish(
